@@ -138,9 +138,26 @@ def _packed(case):
         tag = {"op": op, "n": n, "lattice": lat, "params": params, "maskform": form, "dtype": dt_}
         oc = _judge(op, params, cols, res, viols, tag, counters, tol=1e-6 if dt_ == "float32" else 1e-9)
         outcomes["%s:%s" % (op, oc)] = outcomes.get("%s:%s" % (op, oc), 0) + 1
-        if res[0] == "ok" and isinstance(res[1], numpy.ndarray):
-            for v in set(numpy.ma.compressed(numpy.ma.asarray(res[1])).round(6).tolist()[:2000]):
-                pass
+        # the same cells arranged as a grid (rank 2) and as a block (rank 3): the definitions are cell-wise, so the result is the
+        # vector result reshaped, missing cells included
+        if res[0] == "ok" and isinstance(res[1], numpy.ndarray) and len(tuples) > 1:
+            N = len(tuples)
+            f = next((d for d in (2, 3, 5, 7, 11) if N % d == 0), None)
+            shapes = [(f, N // f)] if f else [(1, N)]
+            if f and (N // f) % f == 0:
+                shapes.append((f, f, N // f // f))
+            for shp in shapes:
+                rg = D.execute(op, [D.mk_array(c, maskform=form, dtype=dt_, shape=shp) for c in cols], params)
+                same = rg[0] == "ok" and isinstance(rg[1], numpy.ndarray) and tuple(rg[1].shape) == shp and _same(("ok", numpy.ma.asarray(rg[1]).reshape(N)), res, 0.0)
+                if not same:
+                    what = "raised %r" % (rg[1],) if rg[0] != "ok" else "differs from the vector result"
+                    if rg[0] == "ok" and isinstance(rg[1], numpy.ndarray) and tuple(rg[1].shape) == shp:
+                        a, b = numpy.ma.asarray(rg[1]).reshape(N), numpy.ma.asarray(res[1])
+                        ma, mb = numpy.ma.getmaskarray(a), numpy.ma.getmaskarray(b)
+                        i = int(numpy.argmax((ma != mb) | (a.filled(0) != b.filled(0))))
+                        what = "cell %d is %s, in the vector result %s (inputs %s)" % (i, "MISSING" if ma[i] else a[i], "MISSING" if mb[i] else b[i], [str(c[i]) for c in cols])
+                    viols.append(V("C06:%s:grid-differs-from-vector" % op, "%s %r on shape %r: %s" % (op, params, shp, what), **dict(tag, shape=list(shp))))
+                    break
     nontriv = sum(1 for t in tuples if any(x is not None for x in t))
     return {"evals": len(tuples) * len(forms), "nontrivial": nontriv, "judged": counters["judged"], "unspecified": counters["unspecified"],
             "viols": viols, "outcomes": outcomes,
